@@ -206,3 +206,17 @@ Qed.
 (* chi2 does not see the Jacobians *)
 Lemma chi2_tb vs Q es : spec_chi2 (map (tb_edge vs Q) es) = spec_chi2 es.
 Proof. unfold spec_chi2. rewrite sumlist_map. reflexivity. Qed.
+
+(* the hypotheses of basis_change_inv are satisfiable: identity blocks, and a rotation block with its transpose *)
+Example inverse_blocks_identity vs : inverse_blocks vs (fun _ i j => ind (Nat.eqb i j)) (fun _ i j => ind (Nat.eqb i j)).
+Proof.
+  intros k i m Hk Hi Hm. rewrite (sumn_ind_pick (dim_at vs k) i (fun j => ind (Nat.eqb j m)) Hi). reflexivity.
+Qed.
+Example inverse_blocks_rotation (c s : R) : c * c + s * s = 1 ->
+  inverse_blocks [mkvertex 2 false]
+    (fun _ i j => match i, j with O, O => c | O, S O => - s | S O, O => s | S O, S O => c | _, _ => 0 end)
+    (fun _ i j => match i, j with O, O => c | O, S O => s | S O, O => - s | S O, S O => c | _, _ => 0 end).
+Proof.
+  intros H k i m Hk Hi Hm. simpl in Hk. assert (k = 0%nat) by lia. subst k. unfold dim_at in *. simpl in *.
+  destruct i as [|[|i]]; destruct m as [|[|m]]; try lia; simpl; unfold ind; simpl; nra.
+Qed.
